@@ -280,6 +280,16 @@ func (d *Driver) Deliver(i int, dup bool, lost bool, r *vh.Rand) {
 
 var debugFair = os.Getenv("VERIF_DEBUG_FAIR") != ""
 
+// logRank orders logs the way the vote rule does: by the term of the last entry, then by length.
+func logRank(n *Node) uint64 {
+	st := Inspect(n)
+	lt := st.MarkerTerm
+	if len(st.Entries) > 0 && !st.EntriesCompacted {
+		lt = st.Entries[len(st.Entries)-1].Term
+	}
+	return lt<<32 | (st.LastIndex & 0xffffffff)
+}
+
 func sortedKeys(m map[uint64]bool) []uint64 {
 	var out []uint64
 	for k := range m {
@@ -578,6 +588,13 @@ func (d *Driver) FairPhase(rounds int) string {
 					return ""
 				}
 			}
+			// a replica restarted by the simulator before its bootstrap entries were persisted comes
+			// back with an empty log and no membership (a real NodeHost is started again with the
+			// initial members and bootstraps again): not a fault of the shard
+			if n := c.Nodes[id]; !d.Down[id] && n.Applied == 0 && len(n.Mem.Voters) == 0 && Inspect(n).LastIndex == 0 {
+				d.Inconclusive = true
+				return ""
+			}
 		}
 	}
 	desc := ""
@@ -604,13 +621,13 @@ func (d *Driver) FairPhase(rounds int) string {
 			if d.Down[id] || best == nil {
 				continue
 			}
-			st := Inspect(c.Nodes[id])
+			rk := logRank(c.Nodes[id])
 			if best.Mem.Witnesses[id] {
-				if st.LastIndex > maxWitness {
-					maxWitness = st.LastIndex
+				if rk > maxWitness {
+					maxWitness = rk
 				}
-			} else if best.Mem.Voters[id] && st.LastIndex > maxVoter {
-				maxVoter = st.LastIndex
+			} else if best.Mem.Voters[id] && rk > maxVoter {
+				maxVoter = rk
 			}
 		}
 	}
@@ -630,22 +647,27 @@ func (d *Driver) FairPhase(rounds int) string {
 		}
 		if best != nil {
 			maxMember, maxRemoved, stale := uint64(0), uint64(0), false
+			// a replica the most advanced membership no longer lists in any role was removed (the
+			// removed set itself does not survive a restart from the simulator's snapshot text)
+			gone := func(k uint64) bool {
+				return best.Mem.Removed[k] || (!best.Mem.Voters[k] && !best.Mem.NonVotings[k] && !best.Mem.Witnesses[k])
+			}
 			for _, id := range d.C.ids() {
 				if d.Down[id] {
 					continue
 				}
-				st := Inspect(c.Nodes[id])
+				rk := logRank(c.Nodes[id])
 				if best.Mem.Voters[id] {
-					if st.LastIndex > maxMember {
-						maxMember = st.LastIndex
+					if rk > maxMember {
+						maxMember = rk
 					}
 					for k := range c.Nodes[id].Mem.Voters {
-						if !best.Mem.Voters[k] && best.Mem.Removed[k] {
+						if gone(k) {
 							stale = true
 						}
 					}
-				} else if best.Mem.Removed[id] && st.LastIndex > maxRemoved {
-					maxRemoved = st.LastIndex
+				} else if gone(id) && rk > maxRemoved {
+					maxRemoved = rk
 				}
 			}
 			if stale && maxRemoved > maxMember {
